@@ -29,7 +29,10 @@ def mix_params(rng):
     return {}
 
 def std_dataset(rng, **kw):
+    no_unary = kw.pop('no_unary', False)
     kw.setdefault('P', mix_params(rng))
+    if no_unary:
+        kw['P'] = dict(kw['P'], unary_trees=0.0)
     if 'maxleaves' not in kw:
         kw['maxleaves'] = rng.choice([3, 4, 5, 6, 8, 8, 10, 12])
     if kw['P'].get('elide', 0) > 0.9 and 'top_positions' not in kw:
